@@ -23,9 +23,9 @@ def vecs(vs):
     return "[" + "; ".join(v3(v) for v in vs) + "]"
 
 
-HEADER = """From Verif Require Import NdIndex Quat RotArr SectorModel.
+HEADER = """From Verif Require Import NdIndex Quat RotArr SectorModel KField GroupK KFloat CoverCheck SectorCertsAll.
 Open Scope float_scope.
-Record case := mk { kind : nat; S : list (rot (T:=float)); N : list (vec3 (T:=float));
+Record case := mk { nm : String.string; la : bool; kind : nat; S : list (rot (T:=float)); N : list (vec3 (T:=float));
   center : option (vec3 (T:=float)); vs : list (vec3 (T:=float)); outs : list (vec3 (T:=float)) }.
 Definition tol9 : float := 1e-9.
 Definition vnorm (v : vec3 (T:=float)) : float := sqrt (vdot FOps v v).
@@ -47,13 +47,37 @@ Definition fragile (c : case) (v : vec3 (T:=float)) : bool :=
      end.
 Definition ok1 (c : case) (v out : vec3 (T:=float)) : bool :=
   v_close_rel (project FOps f_round12 (kind c) tol9 (S c) (N c) (center c) v) out || fragile c v.
-Definition ok (c : case) : bool := all2 (fun v o => ok1 c v o) (vs c) (outs c) && Nat.eqb (List.length (vs c)) (List.length (outs c)).
+(* the exact (K) sector normals the fundamental-domain certificates are about, normalised and evaluated in binary64,
+   are the normals of Symmetry.fundamental_sector at run time (certified and defective subjects alike) *)
+Definition kv2f (v : vec3 (T:=K)) : vec3 (T:=float) := let '(a, b, c) := v in (K2f a, K2f b, K2f c).
+Definition vnormalizef (v : vec3 (T:=float)) : vec3 (T:=float) :=
+  let '(a, b, c) := v in let n := sqrt (a*a + b*b + c*c) in (a / n, b / n, c / n).
+Definition v_close9 (u v : vec3 (T:=float)) : bool :=
+  let '(a, b, c) := u in let '(x, y, z) := v in (abs (a - x) <=? 1e-9) && (abs (b - y) <=? 1e-9) && (abs (c - z) <=? 1e-9).
+Definition exact_normals (c : case) : option (list (vec3 (T:=K))) :=
+  match find (fun sc => String.eqb (sc_name sc) (nm c) && Bool.eqb (sc_laue sc) (la c)) (List.concat all_sector_certs) with
+  | Some sc => Some (sc_N sc)
+  | None => match find (fun sd => String.eqb (sd_name sd) (nm c) && Bool.eqb (sd_laue sd) (la c)) sector_defects with
+            | Some sd => Some (sd_N sd) | None => None end
+  end.
+Definition ok_normals (c : case) : bool :=
+  match exact_normals c with
+  | None => false
+  | Some NK => let M := map (fun v => vnormalizef (kv2f v)) NK in
+               let Nn := map vnormalizef (N c) in
+               forallb (fun m => existsb (v_close9 m) Nn) M && forallb (fun n => existsb (v_close9 n) M) Nn
+  end.
+Definition ok (c : case) : bool :=
+  all2 (fun v o => ok1 c v o) (vs c) (outs c) && Nat.eqb (List.length (vs c)) (List.length (outs c)) && ok_normals c.
 """
 
 
 def case_coq(c):
     ce = "None" if c["center"] is None else f"(Some {v3(c['center'])})"
-    return f"mk {c['kind']}%nat {rots(c['S'])} {vecs(c['N'])} {ce} {vecs(c['v'])} {vecs(c['out'])}"
+    lab = c["label"]
+    la = lab.startswith("laue(")
+    nm = lab[5:-1] if la else lab
+    return f"mk \"{nm}\" {'true' if la else 'false'} {c['kind']}%nat {rots(c['S'])} {vecs(c['N'])} {ce} {vecs(c['v'])} {vecs(c['out'])}"
 
 
 def run(tier, seed):
